@@ -34,7 +34,7 @@ func (t *hTimer) Stop() { t.do = nil; t.stops++ }
 func Run(k *report.Check) {
 	k.Rule = "reorder fetcher: the real ReorderFetcher + EventBatcher (time-out on virtual time) with a producer thread, fetches of arbitrary latency and a consumer thread, every schedule within the stated delay bound (cost = index of the chosen thread at every scheduling point; an early timer expiry costs one), MaxSize in {1,2}, MaxDelay in {10ms,0}, BufferSize in {1,2}: one result per input, in input order, no deadlock. event batcher: every sequence up to the depth over Add / IsFull / Flush(current) / timer expiry / Flush(each of the three most recently issued time-out tokens), MaxSize in {1,2,3}, MaxDelay in {0, 10ms}; the concatenation of all batches handed out must equal the items added, a stale token must flush nothing, IsFull must reflect the batch size. non-trivial = distinct (configuration, batch length, armed/issued token pattern) states in which a time-out token was issued"
 	k.Assumptions = []string{"one goroutine calls the batcher at a time in this part (concurrent use is the reorder-fetcher part's subject, under the scheduler)"}
-	k.Budget(100, 900)
+	k.Budget(150, 900)
 	k.Parts(k.Pick(2, 3))
 	p := params{depth: k.Pick(9, 11)}
 	k.Explore(fmt.Sprintf("eventbatcher/d=%d", p.depth), mc.Config{}, p, batcherBody)
